@@ -121,7 +121,9 @@ FieldDefects(ctx, f, i, j) ==
      \cup Tag(InRanges(m.xr, x.num, FALSE), "field_in_extension_range")
      \cup Tag(x.extendee # "", "field_extendee")
      \cup Tag(x.oneof > Len(m.oneofs), "oneof_index")
-     \cup Tag(x.p3opt /\ (f.syntax # "proto3" \/ c.card # 1
+     \* proto3_optional is the spelling of "optional" in proto3: a singular field that is the only member of its own
+     \* (synthetic) oneof -- a field in no oneof at all would be an "optional" field without presence
+     \cup Tag(x.p3opt /\ (f.syntax # "proto3" \/ c.card # 1 \/ x.oneof = 0
                           \/ (x.oneof # 0 /\ x.oneof <= Len(m.oneofs) /\ Cardinality(members(x.oneof)) # 1)), "proto3_optional")
      \cup Tag(x.packed = "t" /\ ~(c.card = 3 /\ c.kind \notin Unpackable /\ ~c.ismap), "packed")
      \cup (IF c.t.st = "ok" THEN GroupDefects(ctx, f, c, x, full) \cup MapDefects(ctx, f, c, x, full)
